@@ -60,6 +60,9 @@ def daily_usage(rng, T, idx, kind="both", base=None, hb=None, hs=None, cb=None, 
         y = y + hs * np.maximum(hb - T, 0)
     if kind in ("both", "cooling"):
         y = y + cs * np.maximum(T - cb, 0)
+    if kind == "inverted":
+        # usage FALLS towards both temperature extremes (no admissible heating or cooling slope describes it)
+        y = np.maximum(0.2 * base, y + 0.4 * base - 0.5 * hs * np.maximum(hb - T, 0) - 0.5 * cs * np.maximum(T - cb, 0))
     if weekend:
         y = y * np.where(idx.dayofweek.values >= 5, 1 + weekend, 1.0)
     if season:
